@@ -467,6 +467,12 @@ func c34Op(r *vu.RNG, nids, nprio int, observers bool) string {
 	x := r.Intn(20)
 	switch {
 	case x < 8:
+		if r.Chance(1, 5) {
+			// priorities are uint64: values around 2^63 and 2^64 catch comparisons done by
+			// subtraction or through a signed conversion
+			b := []uint64{0, 1, 1<<63 - 1, 1 << 63, 1<<63 + 1, ^uint64(0) - 1, ^uint64(0)}
+			return "u:" + vu.X(id) + ":" + vu.X(b[r.Intn(len(b))])
+		}
 		return "u:" + vu.X(id) + ":" + vu.X(uint64(r.Intn(nprio)))
 	case x < 11:
 		return "o"
